@@ -204,3 +204,38 @@ def r10_5(rep):
     aligns = [n for n in b.walk() if n["k"] == "Let" and n["pat"].get("name") == "align"]
     rep.check(bool(aligns) and b.canon(aligns[0]["init"], 6).startswith("std::cmp::Ord::max(" + lay + "align"), "align-source",
               "align is layout.align.max(1) (%s)" % (b.canon(aligns[0]["init"], 6) if aligns else "?"), b.loc(b.root))
+
+
+@RULES.rule("R10.6", "user-supplied module raw lines (where definitions of blocklisted types go) are emitted whatever else the module holds", floor=4)
+def r10_6(rep):
+    """With --enable-cxx-namespaces the user supplies the definition of a blocklisted `ns::T` through
+    `--module-raw-line root::ns ...`; if the module is dropped because nothing else in it is generated, every use of
+    `root::ns::T` dangles (e.g. a namespace whose items are all blocklisted)."""
+    prog = rep.prog
+    b = rep.need(prog.impl_fn(CG, "ir::module::Module", "codegen"), "<Module as CodeGenerator>::codegen")
+    pushes = [c for c in b.calls(lambda x: x["k"] == "MCall" and x["name"] in ("push", "extend", "append_all") and x["args"])
+              if "TokenStream" in b.canon(c["args"][0], 6) and "from_str" in b.canon(c["args"][0], 6) and "module_lines" in b.canon(c["args"][0], 8)]
+    rep.need(pushes, "the push of the module's raw lines")
+    ALLOWED = ("enable_cxx_namespaces", "conservative_inline_namespaces", "Module::is_inline", "module_lines", "is_inline")
+    for L in pushes:
+        for a, pol, node in qq.guard_atoms(b, L):
+            ok = any(x in a for x in ALLOWED)
+            rep.check(ok, "raw-lines-unconditional", "the raw lines of a module are emitted independently of what else the module contains "
+                      "(found condition `%s`)" % a[:120], b.loc(L))
+    mods = [q for q in qq.quote_sites(b) if q.has("pub", "mod", "#ident")]
+    rep.need(mods, "`pub mod #ident` emission")
+    loops = [n for n in b.walk() if n["k"] == "For" and any(x is pushes[0] for x in b.walk(n["body"]))]
+    for q in mods:
+        for a, pol, node in qq.guard_atoms(b, q.root):
+            if any(x in a for x in ALLOWED) or "root_module" in a:
+                rep.ok("module-emitted:namespace-cond")
+                continue
+            node = strip(node)
+            if node.get("k") == "Local" and node["id"] in (b.local_mut | b.local_assigned):
+                # a flag: must be raised where the raw lines are pushed
+                raised = [x for x in b.walk() if x["k"] == "Assign" and strip(x["l"]).get("id") == node["id"] and strip(x["r"]).get("v") is True
+                          and loops and any(y is x for y in b.walk(loops[0]["body"]))]
+                rep.check(bool(raised) and not pol is False or bool(raised), "module-emitted-when-raw-lines",
+                          "the flag `%s` that decides whether the module is emitted is set when raw lines are pushed" % node["name"], q.loc())
+            else:
+                rep.bad("module-emitted-when-raw-lines", "the module emission depends on `%s`, which ignores the module's raw lines" % a[:120], q.loc())
